@@ -100,7 +100,7 @@ impl<'a> FmtVisitor<'a> {
         let snippet = self.snippet(span);
 
         // Do nothing for spaces in the beginning of the file
-        if start == BytePos(0) && end.0 as usize == snippet.len() && snippet.trim().is_empty() {
+        if self.parent_context.is_none() && self.buffer.is_empty() && snippet.trim().is_empty() {
             return;
         }
 
